@@ -30,12 +30,59 @@ BUILTIN_NAMES = set(dir(builtins))
 PKG = 'pane'
 
 
+def _expand_literal_dictcomps(tree: ast.Module) -> None:
+    """A module-level table written as a comprehension over small literal domains
+
+        TABLE = {(a, b): f(a, b) for a in (False, True) for b in (False, True)}
+
+    is unrolled into the dictionary display it denotes (keys and values with the loop variables replaced by the constants), so that
+    the rules which read tables (which cell holds what) see the same thing whether the table is spelled out or generated."""
+    import itertools
+
+    class Sub(ast.NodeTransformer):
+        def __init__(self, env: t.Dict[str, ast.Constant]):
+            self.env = env
+
+        def visit_Name(self, node: ast.Name) -> t.Any:
+            if isinstance(node.ctx, ast.Load) and node.id in self.env:
+                return ast.copy_location(ast.Constant(value=self.env[node.id].value), node)
+            return node
+    for st in tree.body:
+        val = st.value if isinstance(st, (ast.Assign, ast.AnnAssign)) else None
+        if not isinstance(val, ast.DictComp):
+            continue
+        doms: t.List[t.Tuple[str, t.List[ast.Constant]]] = []
+        ok = True
+        for g in val.generators:
+            if g.ifs or g.is_async or not isinstance(g.target, ast.Name) or not isinstance(g.iter, (ast.Tuple, ast.List)) \
+                    or not g.iter.elts or not all(isinstance(e, ast.Constant) for e in g.iter.elts):
+                ok = False
+                break
+            doms.append((g.target.id, t.cast(t.List[ast.Constant], list(g.iter.elts))))
+        size = 1
+        for _nm, d in doms:
+            size *= len(d)
+        if not ok or not doms or size > 256:
+            continue
+        keys: t.List[t.Optional[ast.expr]] = []
+        values: t.List[ast.expr] = []
+        for combo in itertools.product(*[d for _nm, d in doms]):
+            env = {nm: c for (nm, _d), c in zip(doms, combo)}
+            keys.append(Sub(env).visit(ast.parse(ast.unparse(val.key), mode='eval').body))
+            values.append(Sub(env).visit(ast.parse(ast.unparse(val.value), mode='eval').body))
+        new = ast.Dict(keys=keys, values=values)
+        for y in ast.walk(new):
+            ast.copy_location(y, val)
+        st.value = new      # type: ignore[union-attr]
+
+
 class Module:
     def __init__(self, name: str, relpath: str, src: str):
         self.name = name
         self.relpath = relpath
         self.src = src
         self.tree = ast.parse(src, filename=relpath)
+        _expand_literal_dictcomps(self.tree)
         self.lines = src.splitlines()
         self.imports: t.Dict[str, str] = {}
         self.toplevel: t.Dict[str, ast.AST] = {}        # name -> defining node (FunctionDef/ClassDef/value expr)
@@ -194,14 +241,19 @@ class Model:
         self._expand_classifiers()
 
     def _expand_classifiers(self) -> None:
-        from .expand import expand_function, inline_import_helpers, spread_kwargs_dicts, inline_method_aliases, loops_to_comprehensions, merge_boolean_returns
+        from .expand import expand_function, split_conditional_returns, fold_attribute_aliases, generator_to_genexp, merge_isinstance_chains, inline_import_helpers, spread_kwargs_dicts, inline_method_aliases, loops_to_comprehensions, merge_boolean_returns
         for f in list(self.functions.values()):
             fn = f.node
             if not isinstance(fn, ast.FunctionDef):
                 continue
             na = inline_method_aliases(fn)
+            na += merge_isinstance_chains(fn)
+            if f.module.name in ('pane.converters', 'pane.classes'):
+                na += split_conditional_returns(fn)
             na += merge_boolean_returns(fn)
             na += spread_kwargs_dicts(fn)
+            if not f.module.name.startswith('pane.converters') and not f.module.name.startswith('pane.errors'):
+                na += generator_to_genexp(fn)
 
             def lookup(call: ast.Call, f: FuncInfo = f) -> t.Optional[ast.FunctionDef]:
                 q = self.resolve(call.func, f.module, f)
@@ -218,6 +270,12 @@ class Model:
             if not f.module.name.startswith('pane.converters'):
                 # (the converter passes are analysed on their control flow as written: their loops carry try / except)
                 na += loops_to_comprehensions(fn)
+            if f.cls is not None:
+                for _i in range(4):
+                    k_ = fold_attribute_aliases(fn)
+                    na += k_
+                    if not k_:
+                        break
             if na:
                 self.expanded[f.qualname] = self.expanded.get(f.qualname, 0) + na
                 for p_ in ast.walk(fn):
